@@ -18,7 +18,7 @@ RULE = (
 ASSUMPTIONS = ["operations inserted with insert_at are not wired to classical registers (only add does that); the statement asks for "
                "quantum wires only, classical wires must merely stay single paths",
                "group_one_qubit_gates groups unitary one-qubit gates; a Z-measurement ends a run"]
-REQUIRED_CLASSES = {"history": ["insert", "insert2", "remove", "replace", "group", "unwrap", "rmid", "copy", "addreg", "register_adding_add"]}
+REQUIRED_CLASSES = {"history": ["insert", "insert2", "remove", "replace", "group", "unwrap", "rmid", "copy", "addreg", "register_adding_add", "edges_ordered_through_classical_wire_only"]}
 
 UNITARY1 = set(gc.ONE) | {"W"}
 
@@ -198,6 +198,41 @@ def verify(circ, M, sub, site, step):
         bad("validate", "validate() raised %r" % (e,))
 
 
+def classical_only_order(M, e1, q2):
+    """model-side: is some edge of wire q2 ordered with edge e1 through wires that include a classical one, but not through
+    quantum wires alone?  (successor relation from the model's wires; the node after / before e1 is the start)"""
+    def reach(start_nodes, forward, use_classical):
+        succ = {}
+        for key, w in M.wire.items():
+            if key[0] == "c" and not use_classical:
+                continue
+            ww = [x for x in w if key[0] != "c" or M.cwired.get(x, False)]
+            for a, b in zip(ww, ww[1:]):
+                if forward:
+                    succ.setdefault(a, set()).add(b)
+                else:
+                    succ.setdefault(b, set()).add(a)
+        seen = set(start_nodes)
+        todo = list(start_nodes)
+        while todo:
+            x = todo.pop()
+            for y in succ.get(x, ()):
+                if y not in seen:
+                    seen.add(y)
+                    todo.append(y)
+        return seen
+    a, b = e1[0], e1[1]
+    on_q2 = set(M.wire[q2])
+    for forward, start in ((True, b), (False, a)):
+        if str(start).endswith(("_in", "_out")):
+            continue
+        full = reach([start], forward, True) & on_q2
+        quantum = reach([start], forward, False) & on_q2
+        if full - quantum:
+            return True
+    return False
+
+
 def check_history(case, sub="history"):
     import copy as _copy
 
@@ -255,7 +290,19 @@ def check_history(case, sub="history"):
         do_add(d)
     verify(circ, M, sub, "add", "initial circuit")
 
+    steps = []
     for step in case["steps"]:
+        if step[0] == "cpair":
+            # two measuring operations on different quantum registers writing the same classical register, then a two-qubit
+            # operation between the two registers: its edge pairs are partly ordered through the classical wire only
+            _, ta, ra, tb, rb, c, kinds, gate, i, j, flip = step
+            mk = lambda kind, t, r, t2, r2: ["MZ", t, r, c] if kind == "MZ" else [kind, t, r, t2, r2, c]
+            steps.append(["add", mk(kinds[0], ta, ra, tb, rb)])
+            steps.append(["add", mk(kinds[1], tb, rb, ta, ra)])
+            steps.append(["insert", [gate, tb, rb, ta, ra] if flip else [gate, ta, ra, tb, rb], i, j])
+        else:
+            steps.append(step)
+    for step in steps:
         op = step[0]
         site = op
         if op == "add":
@@ -278,6 +325,8 @@ def check_history(case, sub="history"):
             poss = [i1]
             if len(qs) == 2:
                 inc = guarded(sub, "plain", circ.find_incompatible_edges, e1)
+                if classical_only_order(M, e1, qs[1]):
+                    cl.add("edges_ordered_through_classical_wire_only")
                 w = M.wire[qs[1]]
                 seq = ["%s%d_in" % qs[1]] + list(w) + ["%s%d_out" % qs[1]]
                 cands = [(i, (seq[i], seq[i + 1], "%s%d" % qs[1])) for i in range(len(seq) - 1)]
@@ -487,6 +536,9 @@ def st_edit(max_reg=3):
         st.tuples(st.just("add"), opd(False)),
         st.tuples(st.just("insert"), opd(False), i, i),
         st.tuples(st.just("insert"), opd(False), i, i),
+        st.tuples(st.just("cpair"), st.sampled_from("ep"), st.integers(0, max_reg - 1), st.sampled_from("ep"), st.integers(0, max_reg - 1),
+                  st.integers(0, 1), st.lists(st.sampled_from(["MZ", "MZ"] + gc.CC), min_size=2, max_size=2), st.sampled_from(gc.TWO), i, i,
+                  st.booleans()),
         st.tuples(st.just("remove"), i),
         st.tuples(st.just("replace"), i, one, i),
         st.tuples(st.just("unwrap")),
